@@ -235,6 +235,10 @@ impl<H: Hal, T: Transport> VirtIOConsole<H, T> {
     fn wait_for_receive(&mut self) -> Result {
         self.poll_retrieve()?;
         while self.cursor == self.pending_len {
+            #[cfg(feature = "verif-hooks")]
+            crate::verif_hooks::fire(crate::verif_hooks::Point::Spin(
+                crate::verif_hooks::SpinSite::ConsoleWaitForReceive,
+            ));
             self.finish_receive()?;
         }
         Ok(())
